@@ -135,6 +135,7 @@ def main():
         filt = comp.C08Filter(spec["mode"], {int(k): v for k, v in spec["kmap"].items()}, spec["raising"], spec["side"],
                               spec["perturb_seed"], spec["worker_jitter_ms"], spec.get("exc_type", "ValueError"))
         filt.none_uid = (spec.get("none_items") or [None])[0]
+        filt.none_out = set(spec.get("none_outputs") or [])
         none_at = set(spec.get("none_items") or [])       # None is a legal ITEM (only queue payloads use None as the pill)
         def source():
             for uid in range(spec["n_items"]):
@@ -164,7 +165,7 @@ def main():
                 pass
             else:
                 for o in it:
-                    res["got"].append(list(o))
+                    res["got"].append(["None", -1, 0] if o is None else list(o))
                     if spec["consumer_jitter_ms"] and rngc.random() < .5: time.sleep(rngc.random() * spec["consumer_jitter_ms"] / 1000.0)
                     if abandon is not None and len(res["got"]) >= abandon: break
             if abandon is not None:
